@@ -453,3 +453,68 @@ func TestVerifSearcher(t *testing.T) {
 		t.Fatal(err)
 	}
 }
+
+// ---------------------------------------------------------------------------------------------------------------
+// sort `less`: the real compareValues / sortProcessor.less / lessDirectRead on TLC-generated value pairs
+
+type vsPair struct {
+	A   interface{} `json:"a"`
+	B   interface{} `json:"b"`
+	Asc bool        `json:"asc"`
+	Op  string      `json:"op"`
+	Rel string      `json:"rel"`
+}
+
+func TestVerifSortLess(t *testing.T) {
+	in, out := os.Getenv("VERIF_LESS_IN"), os.Getenv("VERIF_LESS_OUT")
+	if in == "" || out == "" {
+		t.Skip("VERIF_LESS_IN/VERIF_LESS_OUT not set")
+	}
+	raw, err := os.ReadFile(in)
+	if err != nil {
+		t.Fatal(err)
+	}
+	var pairs []vsPair
+	dec := json.NewDecoder(bytesReaderVerif(raw))
+	dec.UseNumber()
+	if err := dec.Decode(&pairs); err != nil {
+		t.Fatal(err)
+	}
+	type fail struct {
+		I   int    `json:"i"`
+		Got string `json:"got"`
+		Via string `json:"via"`
+	}
+	fails := []fail{}
+	name := map[compare]string{EQUAL: "eq", LESS: "lt", GREATER: "gt"}
+	for i, p := range pairs {
+		va, vb := verifToCVal(p.A), verifToCVal(p.B)
+		op := p.Op
+		if op == "auto" && i%2 == 0 {
+			op = "" // both spellings of the default
+		}
+		got := name[compareValues(&va, &vb, p.Asc, op)]
+		if got != p.Rel {
+			fails = append(fails, fail{i, got, "compareValues"})
+			continue
+		}
+		// the same through sortProcessor.less (SortValues) and lessDirectRead (IQR columns)
+		sp := &sortProcessor{options: &structs.SortExpr{SortEles: []*structs.SortElement{{Field: "k1", SortByAsc: p.Asc, Op: op}}}}
+		q := iqrNewVerif(map[string][]sutils.CValueEnclosure{"k1": {va, vb}})
+		vals, _ := q.ReadColumn("k1")
+		ra, rb := q.GetRecord(0), q.GetRecord(1)
+		ra.SortValues, rb.SortValues = [][]sutils.CValueEnclosure{vals}, [][]sutils.CValueEnclosure{vals}
+		l1, l2 := sp.less(ra, rb), sp.less(rb, ra)
+		d1, d2 := sp.lessDirectRead(q.GetRecord(0), q.GetRecord(1)), sp.lessDirectRead(q.GetRecord(1), q.GetRecord(0))
+		want1, want2 := p.Rel == "lt", p.Rel == "gt"
+		if l1 != want1 || l2 != want2 {
+			fails = append(fails, fail{i, fmt.Sprintf("less(a,b)=%v less(b,a)=%v", l1, l2), "sortProcessor.less"})
+		} else if d1 != want1 || d2 != want2 {
+			fails = append(fails, fail{i, fmt.Sprintf("lessDirectRead(a,b)=%v (b,a)=%v", d1, d2), "lessDirectRead"})
+		}
+	}
+	bs, _ := json.Marshal(map[string]interface{}{"pairs": len(pairs), "fails": fails})
+	if err := os.WriteFile(out, bs, 0o644); err != nil {
+		t.Fatal(err)
+	}
+}
